@@ -378,3 +378,117 @@ func c12TableUses() ([]c12Use, error) {
 	}
 	return uses, nil
 }
+
+// c12CounterInit evaluates the initial value the constructor gives the id counter field of the
+// pool (the field NewThreadID increments): -1 = cannot tell.
+func c12CounterInit() int {
+	cw, err := c12CounterWrites()
+	if err != nil || len(cw) == 0 {
+		return -1
+	}
+	dir := filepath.Join(repoDir(), "engine", "pool")
+	files, _ := filepath.Glob(filepath.Join(dir, "*.go"))
+	sort.Strings(files)
+	fset := token.NewFileSet()
+	var parsed []*ast.File
+	for _, fn := range files {
+		if strings.HasSuffix(fn, "_test.go") {
+			continue
+		}
+		if f, err := parser.ParseFile(fset, fn, nil, 0); err == nil {
+			parsed = append(parsed, f)
+		}
+	}
+	// the counter field: the one NewThreadID increments
+	counter := ""
+	for _, f := range parsed {
+		for _, d := range f.Decls {
+			if fd, ok := d.(*ast.FuncDecl); ok && fd.Name.Name == "NewThreadID" && fd.Body != nil {
+				ast.Inspect(fd.Body, func(n ast.Node) bool {
+					switch x := n.(type) {
+					case *ast.IncDecStmt:
+						if s, ok := x.X.(*ast.SelectorExpr); ok && counter == "" {
+							counter = s.Sel.Name
+						}
+					case *ast.CallExpr:
+						if s, ok := x.Fun.(*ast.SelectorExpr); ok && strings.HasPrefix(s.Sel.Name, "Add") && len(x.Args) > 0 && counter == "" {
+							if u, ok := x.Args[0].(*ast.UnaryExpr); ok {
+								if fs, ok := u.X.(*ast.SelectorExpr); ok {
+									counter = fs.Sel.Name
+								}
+							}
+						}
+					}
+					return true
+				})
+			}
+		}
+	}
+	if counter == "" {
+		return -1
+	}
+	// position of the field in the struct
+	pos := -1
+	for _, f := range parsed {
+		ast.Inspect(f, func(n ast.Node) bool {
+			ts, ok := n.(*ast.TypeSpec)
+			if !ok || ts.Name.Name != "ThreadPool" {
+				return true
+			}
+			if st, ok := ts.Type.(*ast.StructType); ok {
+				i := 0
+				for _, fl := range st.Fields.List {
+					if len(fl.Names) == 0 {
+						i++
+					}
+					for _, nm := range fl.Names {
+						if nm.Name == counter {
+							pos = i
+						}
+						i++
+					}
+				}
+			}
+			return false
+		})
+	}
+	val := -1
+	n := 0
+	for _, f := range parsed {
+		ast.Inspect(f, func(nd ast.Node) bool {
+			cl, ok := nd.(*ast.CompositeLit)
+			if !ok {
+				return true
+			}
+			if id, ok := cl.Type.(*ast.Ident); !ok || id.Name != "ThreadPool" {
+				return true
+			}
+			n++
+			var e ast.Expr
+			keyed := false
+			for _, el := range cl.Elts {
+				if kv, ok := el.(*ast.KeyValueExpr); ok {
+					keyed = true
+					if id, ok := kv.Key.(*ast.Ident); ok && id.Name == counter {
+						e = kv.Value
+					}
+				}
+			}
+			if !keyed && pos >= 0 && pos < len(cl.Elts) {
+				e = cl.Elts[pos]
+			}
+			if keyed && e == nil {
+				val = 0 // field left at its zero value
+				return true
+			}
+			if lit, ok := e.(*ast.BasicLit); ok && lit.Kind == token.INT {
+				fmt.Sscan(lit.Value, &val)
+			}
+			return true
+		})
+	}
+	if n != 1 {
+		return -1
+	}
+	return val
+}
